@@ -329,6 +329,7 @@ def check_molecule(mol, cfg, templates, masses, target, start_fragment, out, sta
             violate("C17.zero-reactivity", "bond %d-%d: partner %r has conditional reactivity 0 given %r" % (u, v, partner, site))
     # -- copies vs templates --------------------------------------------------------------
     names = []
+    by_name = {t["name"]: t for t in cfg.get("templates", [])}
     for fid, members in blocks:
         fragname = mol.nodes[members[0]].get("fragname")
         names.append(fragname)
@@ -349,6 +350,14 @@ def check_molecule(mol, cfg, templates, masses, target, start_fragment, out, sta
         got_edges = {(pos[u], pos[v]) if pos[u] <= pos[v] else (pos[v], pos[u]): float(mol.edges[u, v].get("order", 1))
                      for u in head for v in mol[u] if v in pos and u < v}
         want_edges = {(a, b) if a <= b else (b, a): float(o if o is not None else 1) for a, b, o in template.edges(data="order")}
+        made = by_name.get(fragname)
+        if made is not None and made.get("nh_ring") and set(got_edges) == set(want_edges):
+            # a ring with an H-bearing aromatic nitrogen comes back kekulised from the final hydrogen rebuild: its
+            # aromatic bonds may read 1, 2 or 1.5 (the valence and hydrogen-count oracles judge the assignment)
+            for key, want in want_edges.items():
+                if want == 1.5 and got_edges[key] in (1.0, 2.0):
+                    got_edges[key] = 1.5
+                    stats["kekulised_ring_bonds"] = stats.get("kekulised_ring_bonds", 0) + 1
         if not ok or got_edges != want_edges:
             # positional match failed: fall back to a real isomorphism test before judging
             sub = mol.subgraph([m for m in members if not (cfg["all_atom"] and mol.nodes[m].get("element") == "H"
@@ -373,6 +382,25 @@ def check_molecule(mol, cfg, templates, masses, target, start_fragment, out, sta
             if not (cfg["all_atom"] and mol.nodes[node].get("element") == "H"):
                 violate("C16.template", "copy %d of %s has extra node %d (%r)" % (fid, fragname, node, mol.nodes[node].get(label)))
                 break
+        # -- hydrogens per template atom, by construction: the hydrogens of the written atom (bracket counts and
+        #    explicit hydrogens included) minus one per unit of bond order formed at it --------------------
+        if cfg["all_atom"] and made is not None and "used" in made and True:
+            for k, node in enumerate(head[:len(made["atoms"])]):
+                if made["atoms"][k]["el"] == "H":
+                    continue
+                formed = sum(int(d[-1]) for d, _, _, _ in consumed.get(node, []))
+                total = made["used"][k] + formed
+                fits = [v for v in made["states"][k] if v >= total]
+                if not fits:
+                    continue
+                want_h = made["xh"][k] + int(round(fits[0] - total))
+                got_h = sum(1 for nb in mol[node] if mol.nodes[nb].get("element") == "H" and copy_of[nb] == fid)  # not a hydrogen end group
+                stats["hcount_atoms"] = stats.get("hcount_atoms", 0) + 1
+                if got_h != want_h:
+                    violate("C16.valence C09.valence", "atom %d (%s, atom %d of %s) carries %d hydrogens; its written atom has %d bond orders "
+                            "in use, %d were formed while growing, so %d hydrogens complete it"
+                            % (node, mol.nodes[node].get("element"), k, fragname, got_h, made["used"][k], formed, want_h))
+                    break
         # -- descriptor accounting per template atom -----------------------------------
         for node in head:
             written = Counter(template.nodes[pos[node]].get("bonding", []) or [])
